@@ -132,7 +132,25 @@ variable = st.one_of(
 
 
 @st.composite
+def plain_rule(draw, tag_only_p=3):
+    """The everyday rule: a description pattern (or amount test), static and dynamic tags - the tags and field: values are the ONLY readers of
+    custom fields / source / location / date, so anything remembered per description must still see them."""
+    tag_only = draw(st.integers(0, 9)) < tag_only_p
+    m = draw(st.one_of(lang.word.map(lambda w: ['match', 'contains', None, w]), lang.word.map(lambda w: ['match', 'regex', None, w]),
+                       st.sampled_from(lang.CONSTS).map(lambda c: ['cmp', ['name', 'amount'], [['>', ['num', c]]]]), st.just(['match', 'contains', None, ''])))
+    tags = draw(st.lists(tag, min_size=1, max_size=3))
+    if tag_only and not any(isinstance(t, str) and t.strip() for t in tags):
+        tags = tags + ['tagonly']
+    return {'name': draw(st.sampled_from(RULE_NAMES)), 'match': m, 'category': '' if tag_only else draw(st.sampled_from(CATEGORIES)), 'subcategory': draw(st.sampled_from(SUBCATS)),
+            'merchant': None, 'priority': None, 'tags': tags, 'lets': [],
+            'fields': draw(st.lists(st.tuples(st.sampled_from(['note', 'who']), st.sampled_from([['field', 'memo'], ['name', 'source'], ['txn', 'location'], ['name', 'month']])).map(list),
+                                    max_size=1))}
+
+
+@st.composite
 def rule_file(draw, max_rules=8, depth=2, transforms=True, tag_only_p=3):
+    if draw(st.integers(0, 5)) == 0:
+        return {'vars': [], 'transforms': [], 'rules': draw(st.lists(plain_rule(tag_only_p), min_size=1, max_size=min(max_rules, 4)))}
     rules = draw(st.lists(rule(depth, tag_only_p), min_size=0, max_size=max_rules))
     return {
         'vars': draw(st.lists(variable, max_size=3, unique_by=lambda v: v[0])),
@@ -162,7 +180,30 @@ def txn_for(draw, rf):
         pre = draw(st.sampled_from(['', '', 'APLPAY ', 'SQ *', 'TST*']))
         t = dict(t, description=lang.flip_case(pre + draw(st.sampled_from([' ', ' ', '*', '  '])).join(parts),
                                                draw(st.one_of(st.just(0), st.integers(0, 65535)))))
-    return t
+    return nonzero(t)
+
+
+def nonzero(t):
+    """A transaction has a non-zero amount (zero-amount rows are not transactions, C05); normalize_merchant's `amount or 0` would turn 0.0 into int 0."""
+    return dict(t, amount=0.01) if t['amount'] == 0 else t
+
+
+@st.composite
+def txn_list(draw, rf, min_size=2, max_size=4):
+    """Transactions for one engine, often including a TWIN of one of them that differs in exactly one input (custom fields, source,
+    location, date, amount or letter case of the description): whatever is remembered between transactions must depend on all of them."""
+    txns = draw(st.lists(txn_for(rf), min_size=min_size, max_size=max_size))
+    for _ in range(draw(st.sampled_from([0, 1, 1, 2]))):
+        base = draw(st.sampled_from(txns))
+        dim = draw(st.sampled_from(['field', 'field', 'source', 'location', 'date', 'amount', 'case']))
+        if dim == 'case':
+            twin = dict(base, description=lang.flip_case(base['description'], draw(st.integers(1, 65535))))
+        else:
+            twin = dict(base, **{dim: draw({'field': lang.field_dict, 'source': st.one_of(st.sampled_from(lang.SOURCES), st.none()),
+                                            'location': st.one_of(st.none(), st.sampled_from(lang.LOCATIONS)), 'date': st.one_of(lang.iso_date, st.none()),
+                                            'amount': lang.amount}[dim])})
+        txns.insert(draw(st.integers(0, len(txns))), nonzero(twin))
+    return txns
 
 
 # ------------------------------------------------------------------------------------------------
